@@ -254,6 +254,7 @@ fn c10_strategy(max_ops: usize) -> impl Strategy<Value = History> {
             drain,
             general: false,
             listen,
+            accept_faults: false,
         })
 }
 
@@ -288,6 +289,7 @@ fn run_grammar(c: &GrammarCase) -> CaseResult {
         drain: vec![],
         general: false,
         listen: c.listen.clone(),
+        accept_faults: false,
     };
     let st = RefCell::new(St::default());
     let w = run_history(&h, false, |w, rec| check_step(w, rec, &st), |_| Ok(()))?;
